@@ -355,6 +355,53 @@ def neutral_boolean_lane(ctx, rng, select, keys_fn, extra_case=None, profile=Non
     return n
 
 
+def interval_lane(ctx, rng, select, keys_fn, extra_case=None, profile=None):
+    """The interval column against every duration literal of the pool (stored values and their
+    neighbours one microsecond away, small and ~411 years), every comparator, both
+    orientations, negated, in lists."""
+    iv = T.ident("iv")
+    n = 0
+    lits = [T.lit("duration", x) for x in scalar.IV_LITS]
+    for i, l in enumerate(lits):
+        for op in ("eq", "ne", "lt", "le", "gt", "ge"):
+            for t in (("cmp", op, iv, l), ("cmp", op, l, iv), ("un", "not", ("cmp", op, iv, l)),
+                      ("cmp", "in", iv, T.lst(l, lits[(i + 5) % len(lits)])),
+                      ("bool", "or", ("cmp", op, iv, l), ("cmp", "eq", iv, T.lit("null", "null")))):
+                if profile is not None and not scalar.conforms(t, profile):
+                    continue
+                n += 1
+                if not ctx.mine(n):
+                    continue
+                ctx.count("interval_filters")
+                _judge(ctx, t, rng, select, keys_fn, "interval-column", True, 200, extra_case, profile)
+    return n
+
+
+def bool_operand_lane(ctx, rng, select, keys_fn, extra_case=None, profile=None):
+    """eq / ne between boolean-valued operands of every kind - constant, column, comparison,
+    and / or group, negation, boolean function - all ordered pairs."""
+    a, b, fl = T.ident("a"), T.ident("b"), T.ident("flag")
+    X, Y = ("cmp", "eq", a, T.I(1)), ("cmp", "gt", b, T.I(1))
+    ops = [T.lit("bool", "true"), T.lit("bool", "false"), fl, X, ("bool", "or", X, Y), ("bool", "and", X, Y),
+           ("un", "not", X), T.call("contains", T.ident("s"), T.S("a")), ("cmp", "in", a, T.lst(T.I(1), T.I(2))),
+           ("un", "not", ("bool", "or", X, Y))]
+    n = 0
+    for l in ops:
+        for r in ops:
+            if l[0] in ("lit", "id") and r[0] in ("lit", "id"):
+                continue
+            for op in ("eq", "ne"):
+                for t in (("cmp", op, l, r), ("un", "not", ("cmp", op, l, r))):
+                    if profile is not None and not scalar.conforms(t, profile):
+                        continue
+                    n += 1
+                    if not ctx.mine(n):
+                        continue
+                    ctx.count("bool_operand_filters")
+                    _judge(ctx, t, rng, select, keys_fn, "bool-operands", True, 200, extra_case, profile)
+    return n
+
+
 def big_list_lane(ctx, rng, select, keys_fn, n, extra_case=None, profile=None, sizes=(33, 257, 1001, 1500)):
     """Long in-lists as operands of and / or / not / eq, the values that decide the rows
     placed first, last or in the middle of the padding (a translation that chunks, sorts or
